@@ -68,7 +68,7 @@ fn job(ctx: &Ctx, s: &dyn SuiteOps, kind: Kind) -> JobOut {
             let enc = s.encode(&item, codec).expect("harness: valid item must encode");
             for e in entries {
                 let bad = hex::decode(&e.hex).expect("catalogue hex");
-                if bad.len() != f.len {
+                if bad.len() != f.len || e.cl == "valid_extreme" {
                     continue;
                 }
                 let Some(planted) = plant(codec, &enc, good, &bad) else {
